@@ -215,6 +215,17 @@ def decl_cases(P, thorough):
                                        D.method(single(I_), 'add', [arg(T('double'), 'b')]), D.static(single(I_), 'make', []),
                                        D.static(single(I_), 'other', []), D.static(single(I_), 'make', [arg(I_, 'n')]),
                                        D.method(single(I_), 'aaa', []), D.ctor(C, [arg(I_, 'z')]), D.ctor(C), D.method(single(I_), 'add', [])])]
+    # members that differ only in constness, in their template header, or in nothing at all: each is kept
+    Mx = T(P['tpl'][0], t=[T('double')])
+    yield 'twin-members', [D.cls(C, [D.method(single(Mx), 'at', [arg(T('size_t'), 'i')], 1), D.method(single(Mx), 'at', [arg(T('size_t'), 'i')], 0),
+                                     D.method(single(T('T')), 'get', [arg(T('T', 1, '&'), 'v')], 1, [D.tparam('T', [T('int')])]),
+                                     D.method(single(T('T')), 'get', [arg(T('T', 1, '&'), 'v')], 1, [D.tparam('T', [T('double'), T(C)])]),
+                                     D.static(single(I_), 'make', []), D.static(single(I_), 'make', []),
+                                     D.ctor(C), D.ctor(C), D.prop(I_, 'p'), D.op(single(T(C)), '-', []), D.op(single(T(C)), '-', [])]),
+                           D.func(single(I_), 'twice', []), D.func(single(I_), 'twice', []),
+                           # several callables without parameters, at different scopes
+                           D.ns(P['ns'][0], [D.func(single(T('void')), 'noargs', []), D.cls(P['cls'][1], [D.method(single(I_), 'm0', []), D.static(single(I_), 's0', [])])]),
+                           D.func(single(T('void')), 'last', [])]
     # default texts: each text in each argument position of a 3-argument function, and on variables/properties
     for di, dflt in enumerate(DEFAULTS):
         decls = []
